@@ -5,6 +5,7 @@ import re
 from hypothesis import strategies as st
 
 from vlib import rivals
+from vlib import forms
 from vlib.core import call_twice, Part, Violation, Discard, call
 
 from mitxgraders import (StringGrader, FormulaGrader, SingleListGrader, ListGrader,
@@ -209,7 +210,7 @@ def decode(o):
 def build(g, extra):
     kw = {k: decode(v) for k, v in g['kw'].items()}
     kw.update(extra)
-    grader = GRADERS[g['$grader']](**kw)
+    grader = forms.make(GRADERS[g['$grader']], kw)
     rivals.after_build(grader)     # vlib/rivals.py
     return grader
 
@@ -360,6 +361,13 @@ def abc_kwargs(s, flag):
     if flag is not None:
         kw['attempt_based_credit_msg'] = flag
     return kw
+
+
+def poison_inputs(inp):
+    """Submissions that (may) make the call fail, for the failed-call-before history."""
+    if isinstance(inp, str):
+        return ['((' + inp + ' +', [inp]]
+    return [['((' + x + ' +' for x in inp], list(inp)[:-1], 'text']
 
 
 def run(grader, inp, seed, **kw):
@@ -805,6 +813,15 @@ def judge_graders(spec, rec):
             raise Violation('missing-attempt/wrong-error', 'no attempt number: %s: %s' % (type(r).__name__, r))
     for attempt in spec['attempts']:
         v = ref(max(attempt, 1))
+        if (seed + attempt) % 2 == 0:
+            # history: the call before this one FAILED, at another attempt number (a seeded change looked the credit up
+            # before grading and kept it for "the rest of the call" - a failing call left it to the next one).  Failing
+            # submissions: unbalanced text (raises in formula graders, is merely wrong elsewhere), then the wrong kind
+            # of container (a list for a one-box grader, bare text or one box fewer for a multi-box grader)
+            for bad in poison_inputs(inp):
+                call(grader, None, bad, attempt=attempt + 3)
+                rec.calls()
+            rec.cls('history/failed-call-at-another-attempt-just-before')
         st_, res = run(grader, inp, seed, attempt=attempt)
         rec.calls()
         if st_ != 'ok':
